@@ -102,6 +102,36 @@ def worker(job):
                         tot_mis += float(np.abs(mr - ts).sum())
                         cnt += 1
                 res["mismatch"] = tot_mis / cnt if cnt else 0.0
+                # the same agreement judged WITHOUT the model's own edge list: regions are the intersection closure of the measured
+                # cliques, Hasse edges are recomputed here. If the average mismatch over the estimator's (minimal) edges is below 1,
+                # any region's table and any sub-region's table differ by less than the number of Hasse edges (L1 contraction along a path).
+                regs = set(tuple(m["proj"]) for m in inst["meas"])
+                grew = True
+                while grew:
+                    grew = False
+                    for r1 in list(regs):
+                        for r2 in list(regs):
+                            z = set(r1) & set(r2)
+                            if z and not any(set(q) == z for q in regs):
+                                regs.add(tuple(sorted(z))); grew = True
+                rset = {frozenset(q) for q in regs}
+                keys = list(model.marginals.keys())           # the same attribute set may occur twice (measured in two orders)
+                ksets = [frozenset(k_) for k_ in keys]
+                hasse = sum(1 for r1 in ksets for r2 in ksets if r2 < r1 and not any(r2 < r3 < r1 for r3 in ksets))
+                worst = 0.0
+                if set(ksets) != rset:
+                    bad.append("regions %s are not the intersection closure of the measured cliques" % sorted(map(sorted, set(ksets))))
+                else:
+                    for k1 in keys:
+                        for k2 in keys:
+                            if frozenset(k2) < frozenset(k1):
+                                t1 = np.asarray(model.marginals[k1].values, dtype=float)
+                                t2 = np.asarray(model.marginals[k2].values, dtype=float)
+                                m1 = t1.sum(axis=tuple(j for j, x in enumerate(k1) if x not in k2))
+                                keep = [x for x in k1 if x in k2]
+                                m1 = np.transpose(m1, [keep.index(x) for x in k2])
+                                worst = max(worst, float(np.abs(m1 - t2).sum()))
+                res["pair_mismatch"], res["hasse_edges"] = worst, hasse
         res["bad"] = bad
         res["total"] = tot
         if mode == "exact":
@@ -121,6 +151,14 @@ def nested_instance(rng):
     a = inst["order"]
     groups = rng.choice([[(a[0],), (a[0], a[1]), (a[0], a[1], a[2])], [(a[0], a[1], a[2]), (a[0], a[1], a[3]), (a[0], a[2], a[3])],
                          [(a[0], a[1], a[2]), (a[1], a[2], a[3]), (a[2], a[3], a[0])]])
+    if rng.random() < 0.5:
+        # a region with one parent that is itself an intersection and one that is a measured clique (five attributes)
+        inst = E.gen_instance(rng, nattr=5, max_meas=0, zeros_prob=0.0, allow_empty=True, sizes=[2, 2, 2, 2, 2])
+        inst["x"] = [30.0 * v + 5 for v in inst["x"]]
+        a = inst["order"]
+        groups = rng.choice([[(a[0], a[1], a[2]), (a[0], a[1], a[3]), (a[1], a[4])],
+                             [(a[0], a[1], a[2]), (a[1], a[2], a[3]), (a[2], a[4]), (a[0], a[4])],
+                             [(a[2], a[0], a[1]), (a[3], a[1], a[0]), (a[4], a[0])]])
     for g in groups:
         noise = rng.choice([1.0, 5.0])
         Q = E.qmat("identity", math.prod(inst["sz"][x] for x in g))
@@ -141,6 +179,13 @@ def disjoint_instance(rng):
         y = Q @ E.true_marginal(inst, list(g)).reshape(-1) + np.array([rng.gauss(0, noise) for _ in range(Q.shape[0])])
         m["y"] = [float(v) for v in y]
         inst["meas"].append(m)
+    if rng.random() < 0.5:
+        # one clique of the family measured again at a very different noise level (what AIM does when it re-selects a marginal)
+        m0 = rng.choice(inst["meas"])
+        noise = m0["noise"] * rng.choice([0.125, 8.0])
+        Q = E.qmat("identity", math.prod(inst["sz"][x] for x in m0["proj"]))
+        y = Q @ E.true_marginal(inst, list(m0["proj"])).reshape(-1) + np.array([rng.gauss(0, noise) for _ in range(Q.shape[0])])
+        inst["meas"].append({"proj": list(m0["proj"]), "kind": "identity", "noise": noise, "y": [float(v) for v in y]})
     return inst
 
 
@@ -198,6 +243,9 @@ def run(ctx, canary=False):
         if oracle == "convex" and res.get("mismatch", 0.0) >= 1.0 + 1e-9:
             ctx.violation("convex oracle: overlapping tables disagree by %r (L1, averaged over region-graph edges); the estimator enforces < 1" % res["mismatch"], info,
                           {"kind": "infeasible", "oracle": oracle})
+        if oracle == "convex" and res.get("pair_mismatch", 0.0) >= res.get("hasse_edges", 0) + 1e-9 and res.get("pair_mismatch", 0.0) >= 1.0:
+            ctx.violation("convex oracle: a region's table and a sub-region's table disagree by %r (L1), more than the enforced tolerance allows over "
+                          "the %d edges of the region poset" % (res["pair_mismatch"], res["hasse_edges"]), info, {"kind": "infeasible", "oracle": oracle})
         if mode == "exact":
             ex = res["exact_loss"]
             exc = (res["loss"] - ex) / max(1.0, res["l0"] - ex)
